@@ -206,7 +206,7 @@ func oracleC15(cfg []string, results []string) string {
 // C19
 // ---------------------------------------------------------------------------------------------------
 
-var endings = []string{"cclose", "rst", "quit", "bad", "half", "unread"}
+var endings = []string{"cclose", "rst", "quit", "bad", "half", "unread", "halfcr", "halfbulk"}
 var tlsFaults = []string{"plaintext", "garbage", "abort", "none", "selfsigned", "foreign", "expired"}
 
 func genC19(tier string, seed uint64, emit func(string)) {
@@ -231,6 +231,17 @@ func genC19(tier string, seed uint64, emit func(string)) {
 	// a stalled handshake is released by the client going away, or by Stop
 	emit(lifeLine("plain tls", []string{"start", "tlsbad:stall:s", "obs", "ping:t", "cclose:s", "obs", "stop", "obs"}))
 	emit(lifeLine("plain tls", []string{"start", "tlsbad:stall:s", "obs", "stop", "obs", "alive:s"}))
+	// the three cut points between CR and LF of a header line (the id's length selects the cut)
+	for _, k := range []string{"p", "t"} {
+		for _, id := range []string{"abc", "a", "ab"} {
+			emit(lifeLine("plain tls", []string{"start", "open:" + k + ":" + id, "cmd:" + id, "halfcr:" + id, "obs", "ping:" + k, "stop", "obs"}))
+		}
+	}
+	// Stop while a client is stalled inside a request (inside a header line, between CR and LF, inside a bulk payload)
+	for _, st := range []string{"*2\\r\\n$3", "*2\\r", "*2\\r\\n$4\\r\\nECHO\\r\\n$10\\r\\nabc"} {
+		_ = st
+	}
+	emit(lifeLine("plain tls", []string{"start", "open:p:a", "open:t:b", "open:p:c", "stallreq:a", "stallreq:b", "stallreq:c", "obs", "stop", "obs", "alive:a", "alive:b", "alive:c"}))
 	// Stop as the ending, with several connections in flight
 	emit(lifeLine("plain tls", []string{"start", "open:p:a", "open:t:b", "open:p:c", "obs", "stop", "obs", "alive:a", "alive:b", "alive:c"}))
 	// churn mixing all endings
@@ -301,7 +312,7 @@ func oracleC19(cfg []string, results []string) string {
 			if f[1] == "stall" && v == "pending" {
 				open[f[len(f)-1]] = true
 			}
-		case "cclose", "rst", "quit", "bad", "half", "unread":
+		case "cclose", "rst", "quit", "bad", "half", "unread", "halfcr", "halfbulk":
 			delete(open, f[1])
 		case "obs":
 			want := fmt.Sprintf("conns=%d,", len(open))
